@@ -236,12 +236,56 @@ def rule_r4(chk, facts, P):
         raise AnalysisBroken('only %d capacity tests found' % n)
 
 
+def _reads_text(c, slot):
+    """does condition c look at the characters of the string held in slot?"""
+    for m in walk(c):
+        if m[0] == 'u' and m[1] == '*' and strip(m[2]) == slot:
+            return True
+        if m[0] == 'i' and strip(m[1]) == slot:
+            return True
+        if m[0] == 'call' and callee_name(m) in ('strlen', 'strcmp', 'as_strcasecmp', 'strcasecmp', 'strncmp') and \
+                any(strip(a) == slot for a in m[2]):
+            return True
+    return False
+
+
+def rule_r5(chk, facts, P):
+    chk.rule('C11-R5', 'ExpandMacro(): whether a parameter receives its default value, and whether a second value for it '
+             'is reported, is never decided by the text of the argument (an explicitly empty keyword argument "name=" '
+             'is a given argument and overrides a non-empty default)', min_instances=2)
+    f = facts.func('as.c', 'ExpandMacro')
+    n = 0
+    for b, i, ln, m in f.nodes():
+        if not (is_assign(m) and m[1] == '='):
+            continue
+        slot = strip(m[2])
+        if not (slot[0] == 'm' and slot[2].endswith('.Content')):
+            continue
+        n += 1
+        bad = None
+        for bid, bl in f.blocks.items():
+            c = bl.get('cond')
+            if c is None or len(bl['succ']) != 2 or not _reads_text(c, slot):
+                continue
+            for pol in ('T', 'F'):
+                if f.guarded(b, i, lambda l, c=c, pol=pol: l is not None and l[0] == pol and l[1] is c)[0]:
+                    bad = (bid, pol)
+        ok = bad is None
+        chk.ob('C11-R5', 'as.c:ExpandMacro:%s=@%d' % (show(slot), n), ok, f.loc(ln),
+               'not decided by the argument text' if ok else
+               'this store into the argument slot is executed only when the slot\'s current text is %sempty: an explicitly '
+               'empty argument is treated as "not given" and replaced by the default' % ('' if bad[1] == 'F' else 'non-'))
+    if n < 2:
+        raise AnalysisBroken('argument slot stores of ExpandMacro not found')
+
+
 def run(chk, facts, info):
     P = facts.program('asl')
     rule_r1(chk, facts, P)
     rule_r2(chk, facts, P)
     rule_r3(chk, facts, P)
     rule_r4(chk, facts, P)
+    rule_r5(chk, facts, P)
     chk.note('Decided: private symbol space per expansion/iteration, inertness of expansion entry points under skipped '
              'conditionals, special token numbering, terminator-aware growth of line buffers. Not decided: the '
              'textual-substitution equivalence itself.')
